@@ -116,14 +116,14 @@ def _ledger(info, site):
             vs = [tuple(i.vector) for i in pops[t]]
             for a in range(len(vs)):
                 for b in range(a + 1, len(vs)):
-                    if R.close_vectors(vs[a], vs[b]):
+                    if vs[a] == vs[b]:
                         ctx.violation('repeat_in_generation', site, 'generation %d contains the design %r twice' % (t, vs[a]))
                         return
     for t in range(1, G):
         cur = pops[t]
         nxt = pops[t + 1]
         nxt_vecs = [tuple(i.vector) for i in nxt]
-        dropped = [i for i in cur if not any(R.close_vectors(tuple(i.vector), v) for v in nxt_vecs)]
+        dropped = [i for i in cur if tuple(i.vector) not in nxt_vecs]
         for d in dropped:
             for s in nxt:
                 ctx.probe('elitism_pairs')
